@@ -10,9 +10,11 @@
    (the vocabulary of C01: strictly ascending list, lookup of the equivalent element, lawful
    comparison).
 
-   What is not here: that a Clone does not share its path array with the original is an aliasing
-   fact outside a functional model (C03_clone_value says only that the clone is at the same
-   place); the correspondence runs re-read every cursor after every move of any other. *)
+   Clone: in the functional model a cursor is a value, so C03_clone_value can only say that the
+   clone is at the same place.  That later moves of one do not affect the other is a fact about the
+   STORE; C03_clone_independent states it on the store model of Stree/CursorHeap.v (paths as Go
+   slices over backing arrays), and the correspondence runs re-read every cursor (its real path,
+   off the node pointers) after every move of any other. *)
 From Coq Require Import ZArith List Lia.
 Import ListNotations.
 From Mds Require Import Stree.StreeModel Stree.StreeSpec Stree.StreeProofsSet Stree.CursorModel Stree.CursorSpec
